@@ -66,6 +66,9 @@ struct Outcome {
     std::string s = reqs; if (fail) s += " FAIL"; if (over) s += " OVERCONSUME"; if (noprogress) s += " NO-PROGRESS"; if (stuck) s += " REQUEST-DELIVERED-NOTHING-CONSUMED(endless loop in the server)"; if (under) s += " REQUEST-CONSUMED-LESS-THAN-ITS-BODY";
     if (!exc.empty()) s += " EXC:" + exc; s += " rest=" + std::to_string(rest); return s; }
 };
+// message decoration only: was a Content-Length header being processed? (private member read through a probe: a rename must not stop the build)
+template <class P> static auto has_cl_header(P &p, int) -> decltype((void)p.sp_request_, true) { return p.sp_request_ && p.sp_request_->headers.count("Content-Length"); }
+template <class P> static bool has_cl_header(P &, long) { return false; }
 static volatile long g_parse_calls = 0; static volatile size_t g_tostring_bytes = 0;
 
 static std::string case_text(const std::string &data, const size_t *cuts, int ncuts) {
@@ -128,7 +131,7 @@ static Outcome feed(const std::string &data, const size_t *cuts, int ncuts) {
                     : dynamic_cast<const std::length_error *>(&e) ? "length_error" : dynamic_cast<const std::bad_alloc *>(&e) ? "bad_alloc" : "exception";
     o.exc = w.substr(0, 24);
     // the header being processed when it was thrown: parse() stores the header before converting Content-Length
-    if (w == "stoi" && p.sp_request_ && p.sp_request_->headers.count("Content-Length")) o.exc += "-on-content-length";
+    if (w == "stoi" && has_cl_header(p, 0)) o.exc += "-on-content-length";
     o.exc += std::string("(") + cls + ")";
   } catch (...) { o.exc = "non-std-exception"; }
   o.rest = buff.readableSize();
@@ -197,6 +200,14 @@ static std::vector<GenReq> extras() {
   add("POST", "/crlf", "path=/crlf", "HTTP/1.1", "", "", "", "a\r\n\r\nb");                                              // a blank line inside the body
   add("POST", "/nested", "path=/nested", "HTTP/1.1", "", "", "", "GET /x HTTP/1.1\r\nContent-Length: 3\r\n\r\nabc");     // a body that is itself a request
   add("POST", "/lf", "path=/lf", "HTTP/1.0", "", "", "", "\r\n");                                                        // the body is a bare CRLF
+  // long heads: many headers, a header value and a target that cross the 256 / 1024 / 2048 offsets (every 1-cut split is taken, so every offset is a cut)
+  for (int nh : {16, 40}) {
+    std::string lines, before, after;      // std::map order: H00..H39 sort after Content-Length ("C" < "H")
+    for (int h = 0; h < nh; h++) { char nm[8]; snprintf(nm, sizeof nm, "H%02d", h); std::string val = "v" + std::to_string(h) + std::string((size_t)(h % 7), 'y'); lines += std::string(nm) + ": " + val + "\r\n"; after += " [" + std::string(nm) + ": " + val + "]"; }
+    add("POST", "/h" + std::to_string(nh), "path=/h" + std::to_string(nh), "HTTP/1.1", lines, "", after, "hello");
+  }
+  add("POST", "/longvalue", "path=/longvalue", "HTTP/1.1", "X-Long: " + pattern_body(1100) + "\r\n", "", " [X-Long: " + pattern_body(1100) + "]", "hello");
+  add("GET", "/" + pattern_body(2100) + "?q=" + pattern_body(40), "path=/" + pattern_body(2100) + " ?q=" + pattern_body(40), "HTTP/1.1", "Host: x\r\n", "", " [Host: x]", "");
   for (size_t n : {(size_t)10, (size_t)99, (size_t)100, (size_t)255, (size_t)256, (size_t)300, (size_t)1023, (size_t)1024, (size_t)4096, (size_t)5000})
     add("POST", "/b" + std::to_string(n), "path=/b" + std::to_string(n), "HTTP/1.1", "Host: x\r\n", "", " [Host: x]", pattern_body(n));
   return v;
@@ -460,7 +471,7 @@ static int run_mut(long shard, long nshards, int two_cut_max, double deadline) {
       if (m.name == "content-length-value=-1" || m.name == "content-length-negative=1") numeric = false;
       const Outcome *ref = (wf || (numeric && whole.exc.empty() && !whole.over && !whole.noprogress && !whole.stuck)) ? &whole : nullptr; if (wf) { g_mut_wellformed++; if (std::getenv("C12_MUT_LIST")) printf("@INFO accepted-with-declared-length: %s => %s\n", mode.c_str(), whole.str().substr(0, 200).c_str()); }
       size_t L = data.size();
-      if (L <= 400) {                                       // every 1-cut and (short inputs) 2-cut split, plus byte-by-byte
+      if (L <= 6000) {                                      // every 1-cut split (also of the 3-5 KB heads) and (short inputs) every 2-cut split
         size_t c[2];
         for (c[0] = 1; c[0] < L; c[0]++) { total_check(mode.c_str(), data, c, 1, execs, ref); if (L <= (size_t)two_cut_max) for (c[1] = c[0] + 1; c[1] < L; c[1]++) total_check(mode.c_str(), data, c, 2, execs, ref); }
       }
@@ -488,6 +499,7 @@ int main(int argc, char **argv) {
   if (mode == "split") { g_cur_mode = "split"; rc = run_split(atol(argv[2]), atol(argv[3]), atoi(argv[4]), deadline); flush_outcomes("split"); }
   else if (mode == "bytes") { g_cur_mode = "bytes"; rc = run_bytes(atol(argv[2]), atol(argv[3]), atoi(argv[4]), deadline); flush_outcomes("bytes"); }
   else if (mode == "mut") { rc = run_mut(argc > 2 ? atol(argv[2]) : 0, argc > 3 ? atol(argv[3]) : 1, argc > 4 ? atoi(argv[4]) : 80, deadline); flush_outcomes("mut"); }
+  else if (mode == "counts") { printf("nmut=%zu nextras=%zu\n", mutations().size(), extras().size() + 1); return 0; }
   else if (mode == "one") {
     std::string data = unesc(argc > 2 ? argv[2] : ""); std::vector<size_t> cuts; for (int i = 3; i < argc; i++) cuts.push_back((size_t)atol(argv[i]));
     Outcome o = feed(data, cuts.data(), (int)cuts.size()); printf("%s => %s\n", case_text(data, cuts.data(), (int)cuts.size()).c_str(), o.str().c_str());
